@@ -238,6 +238,137 @@ def top_level_union(rng):
             return case
 
 
+def _mmap_of(path):
+    import mmap
+
+    with open(path, "rb") as fh:
+        return mmap.mmap(fh.fileno(), 0, access=mmap.ACCESS_READ)
+
+
+class _Reader:
+    """The least a seekable file-like object is: read, seek and tell over some bytes."""
+
+    def __init__(self, data):
+        self.data = bytes(data)
+        self.pos = 0
+
+    def read(self, n=-1):
+        if n is None or n < 0:
+            n = max(0, len(self.data) - self.pos)
+        out = self.data[self.pos:self.pos + n]
+        self.pos += len(out)
+        return out
+
+    def seek(self, offset, whence=io.SEEK_SET):
+        if whence == io.SEEK_CUR:
+            offset += self.pos
+        elif whence == io.SEEK_END:
+            offset += len(self.data)
+        self.pos = offset
+        return self.pos
+
+    def tell(self):
+        return self.pos
+
+
+def pointer_tables(ctx, rng, n):
+    """Pointers parsed from a stream are dereferenced on that stream: a table of fixed-size entries that point at data
+    behind the table gives the same targets for every input kind, call form and start offset (the entries of counted,
+    fixed and nested arrays, and plain members)."""
+    import os
+    import struct
+    import tempfile
+
+    text = ("struct entry { uint16 id; char *name; };\n"
+            "struct pair { uint32 *num; entry e; };\n"
+            "struct table { uint8 count; entry entries[count]; pair p; entry fixed[2]; uint8 end; };\n")
+    tmpdir = tempfile.mkdtemp(prefix="vf-c09p-")
+    try:
+        for it in range(n):
+            endian = rng.choice("<>")
+            ptr = rng.choice(["uint32", "uint64", "uint16"])
+            psz = {"uint16": 2, "uint32": 4, "uint64": 8}[ptr]
+            pf = endian + {2: "H", 4: "I", 8: "Q"}[psz]
+            compiled = rng.random() < 0.5
+            cs = lib.load(text, endian, False, compiled, ptr=ptr)
+            count = rng.randint(0, 5)
+            nent = count + 1 + 2
+            names = [bytes(rng.randrange(97, 123) for _ in range(rng.randint(0, 6))) for _ in range(nent)]
+            num = rng.randrange(1 << 32)
+            tsize = 1 + nent * (2 + psz) + psz + 1
+
+            def blob_at(p, prefix):
+                pos = p + tsize
+                addrs = []
+                tail = b""
+                for nm in names:
+                    addrs.append(pos + len(tail))
+                    tail += nm + b"\x00"
+                numaddr = pos + len(tail)
+                tail += struct.pack(endian + "I", num)
+                ent = [struct.pack(endian + "H", 0x100 + i) + struct.pack(pf, a) for i, a in enumerate(addrs)]
+                body = (bytes([count]) + b"".join(ent[:count]) + struct.pack(pf, numaddr) + ent[count]
+                        + b"".join(ent[count + 1:]) + b"\x7e")
+                assert len(body) == tsize
+                return prefix + body + tail + b"\xcc" * 3
+
+            def targets(obj):
+                out = [obj.count, obj.end, int(obj.p.num.dereference())]
+                for e in [*obj.entries, obj.p.e, *obj.fixed]:
+                    out.append((e.id, e.name.dereference()))
+                return out
+
+            want = [count, 0x7e, num] + [(0x100 + i, nm) for i, nm in enumerate(names)]
+            for p in (0, rng.choice([1, 5, 16, 100])):
+                prefix = bytes(rng.randrange(256) for _ in range(p))
+                blob = blob_at(p, prefix)
+                path = os.path.join(tmpdir, "t.bin")
+                with open(path, "wb") as fh:
+                    fh.write(blob)
+                kinds = {
+                    "BytesIO": lambda: io.BytesIO(blob), "buffered-file": lambda: open(path, "rb"),
+                    "unbuffered-file": lambda: open(path, "rb", buffering=0),
+                    "recording": lambda: RecordingStream(blob, 0), "minimal-reader": lambda: _Reader(blob),
+                    "mmap": lambda: _mmap_of(path),
+                }
+                if p == 0:
+                    kinds.update({"bytes": lambda: blob, "bytearray": lambda: bytearray(blob),
+                                  "memoryview": lambda: memoryview(blob)})
+                for kname, mk in kinds.items():
+                    for form, call in (("T(x)", lambda x: cs.table(x)), ("T.read(x)", lambda x: cs.table.read(x)),
+                                       ("cs.read(name, x)", lambda x: cs.read("table", x))):
+                        ctx.evaluation(("pointer-table", it, p, kname, form, endian, ptr, compiled))
+                        ctx.cell("pointer-table:" + kname)
+                        x = mk()
+                        try:
+                            if hasattr(x, "seek"):
+                                x.seek(p)
+                            obj = call(x)
+                            got = targets(obj)
+                            pos = None
+                            if hasattr(x, "tell"):
+                                pos = x.position() if isinstance(x, RecordingStream) else None
+                        except Exception as e:  # noqa: BLE001
+                            ctx.violation("forms", f"pointer-table-raises:{type(e).__name__}",
+                                          {"input": kname, "form": form, "offset": p, "endian": endian, "ptr": ptr,
+                                           "compiled": compiled, "blob": blob.hex(), "error": lib.exc_sig(e),
+                                           "workload": "pointer-tables"})
+                            continue
+                        finally:
+                            if hasattr(x, "close"):
+                                x.close()
+                        ctx.event("pointer_targets_compared", len(got))
+                        if got != want:
+                            ctx.violation("forms", "pointers-of-parsed-entries-do-not-dereference-on-the-input-they-came-from",
+                                          {"input": kname, "form": form, "offset": p, "endian": endian, "ptr": ptr,
+                                           "compiled": compiled, "blob": blob.hex(), "got": repr(got), "want": repr(want),
+                                           "workload": "pointer-tables"})
+    finally:
+        import shutil
+
+        shutil.rmtree(tmpdir, ignore_errors=True)
+
+
 def direct_types(ctx, rng, n):
     """Non-structure types parsed directly: scalars, enums, arrays, pointers, unions, at arbitrary offsets, through
     BytesIO, real file objects (buffered and unbuffered) and buffers."""
@@ -291,6 +422,9 @@ def direct_types(ctx, rng, n):
                         "buffered-file": lambda: open(path, "rb"),
                         "unbuffered-file": lambda: open(path, "rb", buffering=0),
                         "recording": lambda: RecordingStream(blob, 0),
+                        # a memory-mapped file is a file-like object (read/seek/tell: parsed from where it stands) that
+                        # also exports its bytes
+                        "mmap": lambda: _mmap_of(path),
                     }
                     for sname, mk in streams.items():
                         ctx.evaluation(("direct", name, endian, sname, p, raw.hex()))
@@ -422,6 +556,8 @@ def run(ctx):
         text_streams(ctx)
     if ctx.shard % 4 == 2:
         direct_types(ctx, ctx.rng("direct"), 2 if not ctx.thorough else 25)
+    if ctx.shard % 4 == 3:
+        pointer_tables(ctx, ctx.rng("pointer-tables"), 6 if not ctx.thorough else 120)
     if ctx.shard % 4 == 1:
         # to-end-of-stream arrays whose elements are read entry by entry (with an end-of-stream probe before each)
         from ..gen import F, L_EOF, N_array, N_int, N_struct
@@ -450,7 +586,14 @@ def run(ctx):
 def replay(ctx, detail):
     if "ast" not in detail:
         print("record:", detail)
+        import random as _r
+
         char_shortcut(ctx)
+        text_streams(ctx)
+        if detail.get("workload") == "pointer-tables":
+            pointer_tables(ctx, ctx.rng("pointer-tables"), 6)
+        elif "stream" in detail or "buffer" in detail:
+            direct_types(ctx, _r.Random(0), 1)
         return
     import random
 
